@@ -79,6 +79,42 @@ def check_record(rec):
     return None
 
 
+def sig_compat_expected(prev_rec_or_tape, rec):
+    """what sig_compatible(prev signature) must answer, read off the records"""
+    def parts(tp):
+        sc, l, r = tp.split('/')
+        return int(sc), parse_span(l), parse_span(r)
+    ps, pl, pr_ = parts(prev_rec_or_tape)
+    cs, cl, cr = parts(rec.split(' ')[1])
+    return (cs == ps and len(cl) >= len(pl) and len(cr) >= len(pr_)
+            and all(cl[i][0] == pl[i][0] for i in range(len(pl)))
+            and all(cr[i][0] == pr_[i][0] for i in range(len(pr_))))
+
+
+def check_eq_answer(ans):
+    """oracle for a tapeeq answer: == and Hash-equality hold exactly when the cells are equal"""
+    f = ans.split('|')
+    if len(f) != 4:
+        return None
+    eq, heq, a, b = f
+    ta, ua = a.split(' ')
+    tb, ub = b.split(' ')
+    if ua == 'big' or ub == 'big':
+        return None
+    def strip(x):
+        x = [int(v) for v in x.split(',')] if x else []
+        while x and x[-1] == 0:
+            x.pop()
+        return x
+    cells_eq = (ta.split('/')[0] == tb.split('/')[0]
+                and [strip(v) for v in ua.split('/')] == [strip(v) for v in ub.split('/')])
+    if (eq == '1') != cells_eq:
+        return f'tapes {ta} and {tb}: == answers {eq} but cells equal = {cells_eq}'
+    if eq == '1' and heq != '1':
+        return f'tapes {ta} and {tb} are == but hash differently'
+    return None
+
+
 def op_field(ops):
     return ';'.join(f'{int(sh)},{co},{int(sk)}' for sh, co, sk in ops)
 
@@ -124,6 +160,21 @@ def cases(seed, tier):
         seq = [(rng.randint(0, 1), rng.randrange(cols), rng.randint(0, 1)) for _ in range(rng.randint(1, 12))]
         out.append((f'{"s" if canonical else "n"}{i}', f'tape|h|{gen.tape_field(scan, l, r)}|{op_field(seq)}'))
     dist['random_start_tapes'] = nst
+    # 4. equality: pairs of op sequences from the blank tape (same / different cells)
+    neq = 6000 if tier == 'quick' else 60000
+    for i in range(neq):
+        cols = rng.randint(2, 3)
+        la = [(rng.randint(0, 1), rng.randrange(cols), rng.randint(0, 1)) for _ in range(rng.randint(0, 6))]
+        r = rng.random()
+        if r < 0.3:
+            lb = list(la)
+        elif r < 0.6:                      # same prefix, small variation: prefix-related tapes
+            lb = la[:rng.randint(0, len(la))] + [(rng.randint(0, 1), rng.randrange(cols), rng.randint(0, 1))
+                                                 for _ in range(rng.randint(0, 2))]
+        else:
+            lb = [(rng.randint(0, 1), rng.randrange(cols), rng.randint(0, 1)) for _ in range(rng.randint(0, 6))]
+        out.append((f'e{i}', f'tapeeq|0//|{op_field(la)}|0//|{op_field(lb)}'))
+    dist['equality_pairs'] = neq
     return out, dist
 
 
@@ -168,8 +219,10 @@ def run(rep, tier, seed):
             tp = parts[2].split(' ')[1]
             if tp.count(':') >= 2:
                 nontrivial.add(tp)
-        elif a.startswith('PANIC') and not m.get(cid, '').startswith('PANIC'):
-            pass
+        elif cid.startswith('e'):
+            why = check_eq_answer(a)
+            if why:
+                fails.append((cid, line, why))
     rep.coverage.update({
         'evaluations': len(cs),
         'distinct_nontrivial': len(nontrivial),
@@ -210,15 +263,28 @@ def search(rep, diffs, fails):
     if fails:
         return
     for cid, line, a, b in diffs[:3]:
+        if line.startswith('tapeeq'):
+            why = check_eq_answer(a)
+            rep.violation({'kind': 'property-failure' if why else 'correspondence', 'case': line, 'impl': a, 'model': b,
+                           'why': why, 'correspondence': 'bbh Tape == / Hash = TapeModel.tape_eqb'}, found=bool(why))
+            continue
         loc = localise(cid, line)
         # does the property itself fail on the implementation's records?
         why = None
         f = line.split('|')
         vline = f'{cid}|tape|v|{f[2]}|{f[3]}'
         h = core.run_bbh([vline]).get(cid, '')
+        prev_tape = f[2]
         for k, r in enumerate(h.split(';')):
             try:
                 why = check_record(r)
+                if not why:
+                    want = sig_compat_expected(prev_tape, r)
+                    got = r.split(' ')[10] == '1'
+                    if want != got:
+                        why = (f'sig_compatible(signature of the previous tape {prev_tape}) answers {got}, '
+                               f'the block colours say {want}')
+                prev_tape = r.split(' ')[1]
             except Exception as ex:          # malformed record (e.g. PANIC)
                 why = f'unreadable record: {r[:80]}'
             if why:
